@@ -94,6 +94,10 @@ class _FakeApps(object):
         self.apps = []
 
     def __enter__(self):
+        with hx.NoTracing():
+            return self._enter()
+
+    def _enter(self):
         self.saved_modules = {}
         self.saved = {}
         for i, spec in enumerate(self.specs):
@@ -119,9 +123,22 @@ class _FakeApps(object):
                           (evomod, 'get_app_name')):
             self.saved[(mod, attr)] = getattr(mod, attr)
             setattr(mod, attr, lambda app: app._v_label)
+        # the import machinery itself is executed untraced (it is not under test and CrossHair
+        # stalls inside importlib's locking code)
+        real_import = evomod.import_module
+        self.saved[(evomod, 'import_module')] = real_import
+
+        def untraced_import(name, package=None):
+            with hx.NoTracing():
+                return real_import(name, package)
+        evomod.import_module = untraced_import
         return self
 
     def __exit__(self, *a):
+        with hx.NoTracing():
+            return self._exit()
+
+    def _exit(self):
         for (mod, attr), v in self.saved.items():
             setattr(mod, attr, v)
         for k, v in self.saved_modules.items():
@@ -170,7 +187,7 @@ def _graph_order(n0, n1, n2, d_kind, d_level, d_from, d_to, d_label, d_on, order
     with _FakeApps(specs) as fa:
         g = EvolutionGraph()
         g.process_migration_deps = False
-        idx = [[0, 1, 2], [2, 1, 0], [1, 2, 0]][order]
+        idx = [[0, 1, 2], [2, 1, 0]][order]
         for i in idx:
             pending = [lab for lab in specs[i]['labels'] if lab not in applied[i]]
             evs = [Evolution(app_label='vfa%d' % i, label=lab) for lab in pending]
@@ -186,33 +203,47 @@ def _graph_order(n0, n1, n2, d_kind, d_level, d_from, d_to, d_label, d_on, order
     return out, specs, applied
 
 
-def h_evolution_graph(n0: int, n1: int, n2: int, d_kind: int, d_level: int, d_from: int,
-                      d_to: int, d_label: int, d_on: int, order: int, applied_mask: int) -> bool:
+def _graph_inputs_ok(n0, n1, n2, a0, a1, a2, d_kind, d_level, d_from, d_to, d_label, d_on, order):
+    if not (0 <= n0 <= 2 and 0 <= n1 <= 2 and 0 <= n2 <= 2 and 0 <= d_kind <= 4 and
+            0 <= d_level <= 1 and 0 <= d_from <= 2 and 0 <= d_to <= 2 and d_from != d_to and
+            0 <= d_label <= 1 and 0 <= d_on <= 1 and 0 <= order <= 1):
+        return False
+    counts = [n0, n1, n2]
+    if not (0 <= a0 <= n0 and 0 <= a1 <= n1 and 0 <= a2 <= n2):
+        return False                        # applied evolutions are a prefix of the sequence
+    if d_kind == 0:
+        return d_level == 0 and d_from == 0 and d_to == 1 and d_label == 0 and d_on == 0
+    # well-formed declarations only: the declaring evolution/app exists, a named target exists
+    if d_level == 1 and d_on >= counts[d_from]:
+        return False
+    if d_level == 0 and (counts[d_from] == 0 or d_on != 0):
+        return False
+    if d_kind in (1, 3) and d_label >= counts[d_to]:
+        return False
+    if d_kind in (2, 4) and d_label != 0:
+        return False
+    return True
+
+
+def h_evolution_graph(d_kind: int, d_level: int, d_from: int, n0: int, n1: int, n2: int,
+                      a0: int, a1: int, a2: int, d_to: int, d_label: int, d_on: int,
+                      order: int) -> bool:
     """Sequence order inside an app, one declared before/after requirement (evolution or app level,
     targeting an evolution or a whole app), registration order of the apps, already-applied
     prefixes: every pending evolution exactly once, all requirements between pending units
     honoured, requirements on applied units ignored without error.
 
-    pre: 0 <= n0 <= 2 and 0 <= n1 <= 2 and 0 <= n2 <= 2 and 0 <= d_kind <= 4 and 0 <= d_level <= 1
-    pre: 0 <= d_from <= 2 and 0 <= d_to <= 2 and d_from != d_to and 0 <= d_label <= 1 and 0 <= d_on <= 1
-    pre: 0 <= order <= 2 and 0 <= applied_mask <= 63
+    pre: _graph_inputs_ok(n0, n1, n2, a0, a1, a2, d_kind, d_level, d_from, d_to, d_label, d_on, order)
     pre: hx.in_part(d_kind, d_level, d_from)
-    pre: not hx.excluded(n0, n1, n2, d_kind, d_level, d_from, d_to, d_label, d_on, order, applied_mask)
+    pre: not hx.excluded(d_kind, d_level, d_from, n0, n1, n2, a0, a1, a2, d_to, d_label, d_on, order)
     post: _
     """
-    counts = [n0, n1, n2]
-    # well-formed declarations only: the declaring evolution exists; a named target evolution exists;
-    # applied sets are prefixes of the sequence
-    if d_kind and d_level == 1 and d_on >= counts[d_from]:
-        return hx.verdict(True, False)
-    if d_kind in (1, 3) and d_label >= counts[d_to]:
-        return hx.verdict(True, False)
-    if d_kind and d_level == 0 and counts[d_from] == 0:
-        return hx.verdict(True, False)
-    for i in range(N_APPS):
-        bits = (applied_mask >> (i * 2)) & 3
-        if bits == 2 or (bits & 1 and counts[i] < 1) or (bits & 2 and counts[i] < 2):
-            return hx.verdict(True, False)
+    (n0, n1, n2, a0, a1, a2, d_kind, d_level, d_from, d_to, d_label, d_on, order) = [
+        hx.realize(x) for x in (n0, n1, n2, a0, a1, a2, d_kind, d_level, d_from, d_to, d_label,
+                                d_on, order)]
+    applied_mask = 0
+    for i, a in enumerate((a0, a1, a2)):
+        applied_mask |= ((1 << a) - 1) << (i * 2)
     try:
         out, specs, applied = _graph_order(n0, n1, n2, d_kind, d_level, d_from, d_to, d_label,
                                            d_on, order, applied_mask)
